@@ -413,6 +413,8 @@ class Function:
 
         for l in self.params():
             add(l, ENTRY, "param", True)
+            if self.is_ref_local(l):
+                add(-l, ENTRY, "param", True)  # initial content of the pointee
         pts = self.points_to()
         for b in self.blocks:
             if b["cleanup"]:
@@ -424,13 +426,16 @@ class Function:
                     if not p["proj"]:
                         add(p["l"], (bid, i), "assign", True, rv=st["rv"])
                     elif p["proj"][0] == "deref":
-                        # store through a pointer: weak def of every local it may point to
-                        for o in pts.get(p["l"], ()):
+                        # store through a pointer: def of every local it may point to; strong when the
+                        # pointer has one possible target and the whole pointee is overwritten
+                        tg = [o for o in pts.get(p["l"], ()) if o[0] in ("local", "param")]
+                        whole = len(pts.get(p["l"], ())) == 1 and len(p["proj"]) == 1
+                        for o in tg:
                             if o[0] == "local":
-                                add(o[1], (bid, i), "store", False, proj=proj_key(p["proj"][1:]), rv=st["rv"])
+                                add(o[1], (bid, i), "store", whole, proj=proj_key(p["proj"][1:]), rv=st["rv"])
                             elif o[0] == "param":
                                 # pointee of a reference parameter: modelled as pseudo-local -(l)
-                                add(-o[1], (bid, i), "store", False, proj=proj_key(p["proj"][1:]), rv=st["rv"])
+                                add(-o[1], (bid, i), "store", whole, proj=proj_key(p["proj"][1:]), rv=st["rv"])
                     else:
                         add(p["l"], (bid, i), "assign", False, proj=proj_key(p["proj"]), rv=st["rv"])
                 elif st["k"] == "setdiscr":
@@ -566,7 +571,10 @@ class Function:
                 else:
                     base = ("deref", base)
             elif isinstance(e, dict) and "f" in e:
-                base = ("field", base, e["f"], e.get("name"))
+                if base[0] == "ovf" and e["f"] == 0:
+                    base = ("bin", base[1], base[2], base[3])  # checked arithmetic: value component
+                else:
+                    base = ("field", base, e["f"], e.get("name"))
             elif isinstance(e, dict) and "idx" in e:
                 base = ("index", base, self.canon_local(e["idx"], point, depth + 1, pure))
             elif isinstance(e, dict) and "cidx" in e:
@@ -635,6 +643,135 @@ class Function:
         if k == "repeat":
             return ("repeat", self.canon(rv["op"], point, depth, pure), rv.get("len"))
         return ("rv", k, d.id if d else None)
+
+    # -------------------------------------------------------------- origins
+    def origins(self, op, point, depth=0, via=(), hide_weak=False):
+        """Where does this operand's value come from?  Follows copies/moves (through
+        all reaching definitions), field reads out of aggregates built locally and
+        reborrows.  Returns a list of Origin."""
+        if op is None:
+            return []
+        if op["k"] == "const":
+            return [Origin("const", op, (), point, via)]
+        if op["k"] not in ("copy", "move"):
+            return [Origin("other", op, (), point, via)]
+        self._hide_weak = hide_weak
+        try:
+            return self.origins_place(op["p"], point, depth, via)
+        finally:
+            self._hide_weak = False
+
+    _hide_weak = False
+
+    def origins_place(self, p, point, depth=0, via=()):
+        if depth > 40:
+            return [Origin("deep", p, (), point, via)]
+        l, proj = p["l"], list(p["proj"])
+        out = []
+        if proj and proj[0] == "deref" and l > 0:
+            tg = self.points_to().get(l, set())
+            if len(tg) == 1:
+                o = next(iter(tg))
+                if o[0] == "param" and o[1] == l or o[0] == "param" and self.single_def(l, point) is not None:
+                    return self.origins_place({"l": -o[1], "proj": proj[1:]}, point, depth + 1, via)
+                if o[0] == "local":
+                    return self.origins_place({"l": o[1], "proj": proj[1:]}, point, depth + 1, via)
+        rds = self.reaching(l, point)
+        if self._hide_weak and any(d.strong for d in rds):
+            rds = [d for d in rds if d.strong]
+        for d in rds or [None]:
+            if d is None:
+                out.append(Origin("undef", l, proj_key(proj), point, via))
+                continue
+            if d.kind == "param":
+                out += self._apply_proj(Origin("param", l, (), point, via), proj, point, depth)
+            elif d.kind == "calldest" and d.strong:
+                out += self._apply_proj(Origin("call", d, (), d.point, via), proj, point, depth)
+            elif d.kind in ("assign", "store") and d.strong and d.rv is not None:
+                rv = d.rv
+                nvia = via + (d.point,)
+                if rv["k"] == "use" and rv["op"]["k"] in ("copy", "move"):
+                    q = rv["op"]["p"]
+                    out += self.origins_place({"l": q["l"], "proj": list(q["proj"]) + proj}, d.point, depth + 1, nvia)
+                elif rv["k"] == "use" and rv["op"]["k"] == "const":
+                    out += self._apply_proj(Origin("const", rv["op"], (), d.point, nvia), proj, point, depth)
+                elif rv["k"] == "copyforderef":
+                    q = rv["p"]
+                    out += self.origins_place({"l": q["l"], "proj": list(q["proj"]) + proj}, d.point, depth + 1, nvia)
+                elif rv["k"] in ("ref", "rawptr") and not proj and rv["p"]["proj"] == ["deref"]:
+                    # plain reborrow `&*x`: the same reference
+                    out += self.origins_place({"l": rv["p"]["l"], "proj": []}, d.point, depth + 1, nvia)
+                elif rv["k"] in ("ref", "rawptr") and not proj:
+                    out.append(Origin("ref", d, (), d.point, nvia))
+                elif rv["k"] in ("ref", "rawptr") and proj and proj[0] == "deref":
+                    q = rv["p"]
+                    out += self.origins_place({"l": q["l"], "proj": list(q["proj"]) + proj[1:]}, d.point, depth + 1, nvia)
+                elif rv["k"] == "agg" and proj:
+                    # read a field back out of a locally built aggregate
+                    pr = list(proj)
+                    if isinstance(pr[0], dict) and "dc" in pr[0]:
+                        pr = pr[1:]
+                    if pr and isinstance(pr[0], dict) and "f" in pr[0] and pr[0]["f"] < len(rv["ops"]):
+                        out += [o.extend(pr[1:]) if pr[1:] else o
+                                for o in self.origins(rv["ops"][pr[0]["f"]], d.point, depth + 1, nvia)]
+                    else:
+                        out += self._apply_proj(Origin("agg", d, (), d.point, nvia), proj, point, depth)
+                elif rv["k"] == "agg":
+                    out.append(Origin("agg", d, (), d.point, nvia))
+                elif rv["k"] == "cast" and rv["kind"].startswith("PointerCoercion") and rv["op"]["k"] in ("copy", "move"):
+                    q = rv["op"]["p"]
+                    out += self.origins_place({"l": q["l"], "proj": list(q["proj"]) + proj}, d.point, depth + 1, nvia)
+                else:
+                    out += self._apply_proj(Origin("expr", d, (), d.point, nvia), proj, point, depth)
+            else:
+                out += self._apply_proj(Origin("weak", d, (), d.point, via), proj, point, depth)
+        # dedupe
+        seen = set()
+        res = []
+        for o in out:
+            k = o.key()
+            if k not in seen:
+                seen.add(k)
+                res.append(o)
+        return res
+
+    def _apply_proj(self, origin, proj, point, depth):
+        if not proj:
+            return [origin]
+        return [origin.extend(proj)]
+
+    def switch_guards(self, block):
+        """all switch edges that edge-dominate `block`:
+        list of (discr_canon, ('eq', value) | ('other', (values...)), test_block)"""
+        out = []
+        idom = self.dominators()
+        if block not in idom:
+            return out
+        b = block
+        cands = []
+        while True:
+            cands.append(b)
+            if b == 0:
+                break
+            b = idom[b]
+        for s in cands:
+            t = self.blocks[s]["term"]
+            if not t or t["k"] != "switch":
+                continue
+            pt = (s, len(self.blocks[s]["stmts"]))
+            targets = {}
+            for v, tgt in t["arms"]:
+                targets.setdefault(tgt, []).append(v)
+            for tgt, vals in targets.items():
+                if tgt == t["otherwise"]:
+                    continue
+                if len(vals) == 1 and self.edge_dominates((s, tgt), block):
+                    out.append((self.canon(t["op"], pt), ("eq", vals[0]), s))
+            o = t["otherwise"]
+            if self.edge_dominates((s, o), block):
+                excl = tuple(sorted(v for v, tgt in t["arms"] if tgt != o))
+                out.append((self.canon(t["op"], pt), ("other", excl), s))
+        return out
 
     # ------------------------------------------------------ dependence slice
     def deps(self, op, point, through_calls=True, stop=None, max_nodes=20000):
@@ -854,6 +991,65 @@ def _term_reads(t, local):
     if k == "drop":
         return _place_reads(t["p"], local)
     return False
+
+
+class Origin:
+    """kind: param(info=local) | call(info=Def) | const(info=operand) | agg(info=Def) |
+    expr(info=Def) | weak(info=Def) | undef | other | deep ;  proj: projection applied on top;
+    point: where the origin value is produced;  via: assignment points the value was copied through"""
+
+    def __init__(self, kind, info, proj, point, via):
+        self.kind = kind
+        self.info = info
+        self.proj = tuple(proj) if not isinstance(proj, tuple) else proj
+        self.point = point
+        self.via = tuple(via)
+
+    def extend(self, proj):
+        return Origin(self.kind, self.info, self.proj + proj_key(proj), self.point, self.via)
+
+    def key(self):
+        if self.kind == "param":
+            return ("param", self.info, self.proj)
+        if self.kind in ("call", "agg", "expr", "weak", "ref"):
+            return (self.kind, self.info.id, self.proj)
+        if self.kind == "const":
+            return ("const", json.dumps(self.info.get("val"), sort_keys=True, default=str), self.info.get("item"), self.proj)
+        return (self.kind, str(self.info), self.proj)
+
+    def callee(self):
+        if self.kind == "call":
+            t = self.info.call
+            return t.get("callee") or t.get("declared")
+        return None
+
+    def first_hop(self):
+        """the point where the value left its origin (first copy), or the origin point"""
+        return self.via[-1] if self.via else self.point
+
+    def describe(self, fn):
+        if self.kind == "param":
+            if self.info < 0:
+                s = "initial *%s" % (fn.local_name(-self.info) or "_%d" % -self.info)
+            else:
+                s = "parameter `%s`" % (fn.local_name(self.info) or "_%d" % self.info)
+        elif self.kind == "call":
+            s = "result of %s (line %s)" % (self.callee(), fn.line_of(self.point))
+        elif self.kind == "const":
+            s = "constant %s" % (self.info.get("item") or json.dumps(self.info.get("val"), default=str))
+        elif self.kind == "agg":
+            rv = self.info.rv
+            s = "%s%s literal (line %s)" % (rv.get("path") or rv.get("agg"), ("::" + rv["variant"]) if rv.get("variant") else "",
+                                            fn.line_of(self.point))
+        elif self.kind == "expr":
+            s = "expression at line %s" % fn.line_of(self.point)
+        elif self.kind == "ref":
+            s = "&%s (line %s)" % (place_str(self.info.rv["p"]), fn.line_of(self.point))
+        else:
+            s = "%s %s" % (self.kind, self.info if not isinstance(self.info, Def) else "def@%s" % fn.line_of(self.point))
+        if self.proj:
+            s += " ." + ".".join(str(x[-1]) if x[0] in ("f",) else x[0] for x in self.proj)
+        return s
 
 
 class Slice:
